@@ -3,7 +3,8 @@
 // For a generated valid sample (library- or reference-written; every overall hash type, flag 2,
 // optional elements, dictionary, 0..many chunks; full file or detached header) EVERY position
 // of the header region is substituted with EVERY other byte value (exhaustive per sample) and
-// single bytes are inserted / deleted with the lead's size field adjusted; the header magic is
+// single bytes are inserted / deleted with the lead's size field adjusted; the lead's two integers
+// are re-encoded in every longer value-preserving form; the header magic is
 // switched between \0ZCK1 and \0ZHR1.  Oracle: zck_init_read must fail for every mutant whose
 // header checksum (computed by the reference as the format specifies) no longer matches, and
 // must still succeed for the pure magic switch.
@@ -77,7 +78,9 @@ static void converse(Ctx &c, const Sample &s) {
         if (k <= 1) {
             ref::Fields F = ref::fields_from(p0.h); size_t nm = 1 + c.draw(2); for (size_t i = 0; i < nm; i++) how += gen::mutate_field(c, F) + "; ";
             F.bad_checksum = k == 1 && c.boolean(); m = ref::emit(F);
-            if (k == 1 && !F.bad_checksum && m.size() >= p0.h.lead_size && ref::digest_size(p0.h.hash_type) > 0) { size_t ds = ref::digest_size(p0.h.hash_type); if (p0.h.lead_size >= ds && m.size() >= p0.h.lead_size) memcpy(m.data() + p0.h.lead_size - ds, p0.h.header_digest.data(), ds); how += "(original stored digest kept) "; }
+            if (k == 1 && !F.bad_checksum && ref::digest_size(p0.h.hash_type) > 0) {   // keep the ORIGINAL stored digest, at the place the altered lead puts its digest
+                ref::ParseResult pm = ref::parse(m); size_t ds = p0.h.header_digest.size();
+                if (pm.h.lead_size >= ds + 7 && pm.h.header_digest.size() == ds && m.size() >= pm.h.lead_size) { memcpy(m.data() + pm.h.lead_size - ds, p0.h.header_digest.data(), ds); how += "(original stored digest kept) "; } }
             m.insert(m.end(), s.file.begin() + std::min(s.file.size(), p0.h.total_size), s.file.end());
         } else { m = s.file; size_t nm = 1 + c.draw(3); for (size_t i = 0; i < nm; i++) { Bytes hdr(m.begin(), m.begin() + std::min(m.size(), s.hdr_len)); how += gen::mutate_raw(c, hdr, hdr.size()) + "; "; Bytes rest(m.begin() + std::min(m.size(), s.hdr_len), m.end()); m = hdr; m.insert(m.end(), rest.begin(), rest.end()); } if (k == 3) { ref::reseal(m); how += "(re-sealed) "; } }
         n++;
@@ -143,6 +146,23 @@ static void prop(Ctx &c) {
         }
     }
     close(fd);
+    // the two integers of the lead written in a different (longer, value-preserving) encoding, everything else - including the
+    // stored checksum - left alone: the checksum covers the bytes, not the values, so none of these may open
+    {
+        ref::ParseResult pq = ref::parse(s.file); size_t ds0 = ref::digest_size(pq.h.hash_type); Bytes c1, c2; ref::ci_put(c1, pq.h.hash_type); ref::ci_put(c2, pq.h.header_length);
+        Bytes o1(s.file.begin() + 5, s.file.begin() + 5 + 0), dummy; (void)o1; (void)dummy;
+        // the sample's own encodings (may already be padded)
+        size_t p = 5; ref::CiResult r1 = ref::ci_get(s.file.data() + p, s.file.size() - p); p += r1.length; ref::CiResult r2 = ref::ci_get(s.file.data() + p, s.file.size() - p);
+        for (size_t l1 = c1.size(); l1 <= 10; l1++) for (size_t l2 = c2.size(); l2 <= 10; l2++) {
+            if (l1 == r1.length && l2 == r2.length) continue;           // that is the sample itself
+            Bytes m(s.file.begin(), s.file.begin() + 5); ref::ci_put_padded(m, pq.h.hash_type, l1); ref::ci_put_padded(m, pq.h.header_length, l2);
+            m.insert(m.end(), s.file.begin() + pq.h.lead_size - ds0, s.file.end()); evals += 2;
+            ref::ParseResult pr = ref::parse(m); if (pr.ok && pr.h.checksum_ok) continue;
+            bool plain = lib_opens_bytes(m); int fd2 = lib::mkfd(m); lib::Pins pp = pins; pp.length = -1; bool pinned = lib_opens_pinned(fd2, pp); close(fd2);
+            if (plain || pinned) { c.extra_evals = evals; c.fail(plain ? "reencoded-lead-accepted" : "reencoded-lead-accepted-under-pinning", "the lead's checksum-type / header-size integers were re-encoded in " + std::to_string(l1) + " / " + std::to_string(l2) + " bytes (same values, stored checksum untouched) and the file still opens" + (plain ? "" : " when the header checksum is pinned") + " (reference: " + pr.reason + ")"); }
+        }
+        c.label("reencoded-lead-integers");
+    }
     // insertions / deletions inside the header proper, size field adjusted (lead re-encoded)
     ref::ParseResult p0 = ref::parse(s.file.size() && memcmp(s.file.data(), "\0ZHR1", 5) == 0 ? s.file : s.file);
     size_t lead = p0.h.lead_size; int ds = ref::digest_size(p0.h.hash_type);
